@@ -17,13 +17,13 @@ func TestDbgC15(t *testing.T) {
 	}
 	props := []*protocol.LockCommandDataProperty{protocol.NewLockCommandDataProperty(1, []byte("p"))}
 	cases := map[string][][]byte{
-		"set-pipeI":   {vd(protocol.NewLockCommandDataSetString("5")), vd(protocol.NewLockCommandDataPipelineData([]*protocol.LockCommandData{protocol.NewLockCommandDataIncrData(3)}))},
-		"setp-set":    {vd(protocol.NewLockCommandDataSetStringWithProperty("abcdef", props)), vd(protocol.NewLockCommandDataSetString("v0"))},
-		"setp-app":    {vd(protocol.NewLockCommandDataSetStringWithProperty("abcdef", props)), vd(protocol.NewLockCommandDataAppendString("x"))},
-		"setp-shift":  {vd(protocol.NewLockCommandDataSetStringWithProperty("abcdef", props)), vd(protocol.NewLockCommandDataShiftData(2))},
-		"set-push":    {vd(protocol.NewLockCommandDataSetString("ab")), vd(protocol.NewLockCommandDataPushString("b"))},
-		"set-incr":    {vd(protocol.NewLockCommandDataSetString("ab")), vd(protocol.NewLockCommandDataIncrData(3))},
-		"none-set":    {nil, vd(protocol.NewLockCommandDataSetString("v0"))},
+		"set-pipeI":  {vd(protocol.NewLockCommandDataSetString("5")), vd(protocol.NewLockCommandDataPipelineData([]*protocol.LockCommandData{protocol.NewLockCommandDataIncrData(3)}))},
+		"setp-set":   {vd(protocol.NewLockCommandDataSetStringWithProperty("abcdef", props)), vd(protocol.NewLockCommandDataSetString("v0"))},
+		"setp-app":   {vd(protocol.NewLockCommandDataSetStringWithProperty("abcdef", props)), vd(protocol.NewLockCommandDataAppendString("x"))},
+		"setp-shift": {vd(protocol.NewLockCommandDataSetStringWithProperty("abcdef", props)), vd(protocol.NewLockCommandDataShiftData(2))},
+		"set-push":   {vd(protocol.NewLockCommandDataSetString("ab")), vd(protocol.NewLockCommandDataPushString("b"))},
+		"set-incr":   {vd(protocol.NewLockCommandDataSetString("ab")), vd(protocol.NewLockCommandDataIncrData(3))},
+		"none-set":   {nil, vd(protocol.NewLockCommandDataSetString("v0"))},
 	}
 	for name, cs := range cases {
 		if os.Getenv("DBGC15") != "1" && os.Getenv("DBGC15") != name {
